@@ -100,7 +100,10 @@ func lcg(n int) []byte {
 }
 
 // content codings an origin may already have applied (besides gzip)
-var c15Codings = map[string]string{"pre-br": "br", "pre-zstd": "zstd", "pre-br+gzip": "br, gzip", "pre-deflate": "deflate", "pre-custom": "x-custom", "pre-GZIP": "GZIP"}
+var c15Codings = map[string]string{"pre-br": "br", "pre-zstd": "zstd", "pre-br+gzip": "br, gzip", "pre-deflate": "deflate", "pre-custom": "x-custom", "pre-GZIP": "GZIP",
+	// the coding is named on a second header line, after one with an empty value (list syntax
+	// allows empty elements): "\x00" separates the lines
+	"pre-br-on-second-line": "\x00br"}
 
 func c15Payload(kind string, n int) []byte {
 	switch kind {
@@ -157,7 +160,9 @@ func (c c15Case) origin() (*hprog, []byte, bool) {
 		// a coding the proxy cannot undo: the (compressible) bytes are opaque and must arrive as sent
 		plain = c15Payload("text", c.Size)
 		wireBody = plain
-		p.Header = append(p.Header, wire.HeaderLine{"Content-Encoding", c15Codings[c.Payload]})
+		for _, v := range strings.Split(c15Codings[c.Payload], "\x00") {
+			p.Header = append(p.Header, wire.HeaderLine{"Content-Encoding", v})
+		}
 	}
 	w := c.Writes
 	if w < 1 {
@@ -355,7 +360,7 @@ func c15Cases(th bool) []c15Case {
 	// core product at one plugin configuration
 	min := 64
 	sizes := []int{0, min - 1, min, min + 1, 4 * min, 100 * 1024}
-	payloads := []string{"zeros", "text", "random", "pre-gzipped", "pre-br", "pre-br+gzip", "pre-zstd", "pre-deflate", "pre-custom", "pre-GZIP"}
+	payloads := []string{"zeros", "text", "random", "pre-gzipped", "pre-br", "pre-br+gzip", "pre-zstd", "pre-deflate", "pre-custom", "pre-GZIP", "pre-br-on-second-line"}
 	statuses := []int{0, 200, 201, 404, 204, 304}
 	for _, ae := range c15AEs {
 		for _, ct := range c15Types {
